@@ -208,6 +208,31 @@ pub fn gen_program_x(rng: &mut Rng, nvars: usize, nops: usize, allow_newvar: boo
             ops.push(Op::And(p, f)); // base+14 == p & f
             continue;
         }
+        // guarded pair (one step in twelve, four or more variables): f = ite(a, g, h) with g over
+        // two further variables and h a literal, then f conditioned on a (both values) and
+        // quantified over a — next to g, h and g|h built directly.  Conditioning on the guard
+        // leaves exactly the elements of one branch, the case in which trimming and compression
+        // of the result matter.
+        if cur_vars >= 4 && rng.chance(1, 12) {
+            let vs = rng.perm(cur_vars);
+            let base = ops.len();
+            ops.push(Op::Var(vs[0], rng.coin())); // base   : a
+            ops.push(Op::Var(vs[1], rng.coin())); // base+1
+            ops.push(Op::Var(vs[2], rng.coin())); // base+2
+            ops.push(match rng.below(3) {
+                0 => Op::And(base + 1, base + 2),
+                1 => Op::Or(base + 1, base + 2),
+                _ => Op::Xor(base + 1, base + 2),
+            }); // base+3 : g
+            ops.push(Op::Var(vs[3], rng.coin())); // base+4 : h
+            ops.push(Op::Ite(base, base + 3, base + 4)); // base+5 : f
+            let av = vs[0];
+            ops.push(Op::Cond(base + 5, av, true)); // base+6
+            ops.push(Op::Cond(base + 5, av, false)); // base+7
+            ops.push(Op::Exist(base + 5, av)); // base+8 == g | h
+            ops.push(Op::Or(base + 3, base + 4)); // base+9
+            continue;
+        }
         // literal if-then-else (one step in twelve, three or more variables): `ite` of three
         // literals over distinct variables, next to the same function assembled from and / or
         if cur_vars >= 3 && rng.chance(1, 12) {
